@@ -40,26 +40,6 @@ Lemma consts_ok :
 Proof. vm_compute. repeat split. Qed.
 Print Assumptions consts_ok.
 
-(* The small literals (array sizes, indices, carry-ins, the zero of the
-   comparisons, case labels) of each modelled routine, in source order: every
-   literal occurrence of the Go text is pinned, not only the wide ones. *)
-Lemma lits_ok :
-  FfgConsts.lits_mulGeneric =
-    [2; 0; 0; 0; 1; 1; 0; 0; qInvNeg; qg; 0; 0; 1; 0; 1; 0; 1; 0; 0; 0; qg;
-     0; 0; 0; 0; qg; 0; 0; qg; 0]
-  /\ FfgConsts.lits_fromMontGeneric = [0; qInvNeg; qg; 0; 0; 0; qg; 0; 0; qg; 0]
-  /\ FfgConsts.lits_addGeneric = [0; 0; 0; 0; 0; 0; 0; qg; 0; 0; qg; 0; 0; qg; 0]
-  /\ FfgConsts.lits_doubleGeneric = [0; 0; 0; 0; 0; 0; 0; qg; 0; 0; qg; 0; 0; qg; 0]
-  /\ FfgConsts.lits_subGeneric = [0; 0; 0; 0; 0; 0; 0; qg; 0]
-  /\ FfgConsts.lits_negGeneric = [0; qg; 0; 0]
-  /\ FfgConsts.lits_reduceGeneric = [0; qg; 0; 0; qg; 0]
-  /\ FfgConsts.lits_Element_SetOne = [0; one]
-  /\ FfgConsts.lits_mulByConstant = [0; 1; 2; 3; 5]
-  /\ FfgConsts.lits_Element_Exp = [0; 2; 0; 1]
-  /\ FfgConsts.lits_Element_Halve = []
-  /\ FfgConsts.lits_Element_Inverse = []
-  /\ FfgConsts.lits_madd0 = [0; 0].
-Proof. vm_compute. repeat split. Qed.
 
 Lemma qg_eq : qg = pg.
 Proof. reflexivity. Qed.
